@@ -226,8 +226,15 @@ func sessionMain(args []string) int {
 				case "compile":
 					k := nint(st, "src")
 					v, e := libvore.Compile(srcs[k].(string))
+					if k == nint(h, "failsrc") && h["failsrc"] != nil {
+						if e == nil {
+							bad = fmt.Sprintf("step %d: the malformed source was accepted", si)
+							return
+						}
+						continue
+					}
 					if e != nil {
-						bad = fmt.Sprintf("step %d: compile error %v", si, e)
+						bad = fmt.Sprintf("step %d: compile error %v (the same source compiles when compiled alone)", si, e)
 						return
 					}
 					objs = append(objs, v)
